@@ -31,24 +31,32 @@ Definition w_retry := prog [] [SPrint true [EBin Add (tcall 1 1) (bcall 2)]].
 
 Definition lines (zs : list Z) : list oitem := flat_map (fun z => [OInt z; ONl]) zs.
 
-Lemma w_sc_runs : run 50 w_sc = (lines [1; 200], Finished) /\ irun dev_pinned 50 w_sc = (lines [1; 2; 200], Finished).
-Proof. split; vm_compute; reflexivity. Qed.
-Lemma w_guard_runs : run 50 w_guard = (lines [0], Finished) /\ irun dev_pinned 50 w_guard = ([], Failed EDiv0).
-Proof. split; vm_compute; reflexivity. Qed.
-Lemma w_idx_runs : run 50 w_idx = (lines [7; 1; 0; 7], Finished) /\ irun dev_pinned 50 w_idx = (lines [7; 7; 0; 1; 7], Finished).
-Proof. split; vm_compute; reflexivity. Qed.
-Lemma w_elem_runs : run 50 w_elem = (lines [5; 3], Finished) /\ irun dev_pinned 50 w_elem = (lines [5; 5; 3], Finished).
-Proof. split; vm_compute; reflexivity. Qed.
-Lemma w_twice_runs : run 50 w_twice = (lines [1; 2; 0], Finished) /\ irun dev_pinned 50 w_twice = (lines [2; 1; 2; 1; 0], Finished).
+(* ---------- today: the three repaired witnesses conform, the two open ones deviate ---------- *)
+Lemma former_witnesses_conform :
+  irun dev_pinned 50 w_sc = run 50 w_sc /\ run 50 w_sc = (lines [1; 200], Finished) /\
+  irun dev_pinned 50 w_guard = run 50 w_guard /\ run 50 w_guard = (lines [0], Finished) /\
+  irun dev_pinned 50 w_idx = run 50 w_idx /\ run 50 w_idx = (lines [7; 1; 0; 7], Finished) /\
+  irun dev_pinned 50 w_elem = run 50 w_elem /\ run 50 w_elem = (lines [5; 3], Finished).
+Proof. repeat split; vm_compute; reflexivity. Qed.
+
+Lemma w_twice_runs : run 50 w_twice = (lines [1; 2; 0], Finished) /\ irun dev_pinned 50 w_twice = (lines [1; 2; 1; 2; 0], Finished).
 Proof. split; vm_compute; reflexivity. Qed.
 Lemma w_retry_runs : run 50 w_retry = (lines [1; 2], Failed EDiv0) /\ irun dev_pinned 50 w_retry = (lines [1; 2; 1; 2], Failed EDiv0).
 Proof. split; vm_compute; reflexivity. Qed.
 
-(* the law and_skips_rhs itself fails for Mech: the left operand is 0, yet the evaluation fails *)
-Lemma mech_and_law_fails :
+(* ---------- HISTORICAL (not obligations): the code before a51b767 / 2967bbb / df79998 ---------- *)
+Lemma before_fixes_runs :
+  irun dev_before_fixes 50 w_sc = (lines [1; 2; 200], Finished) /\
+  irun dev_before_fixes 50 w_guard = ([], Failed EDiv0) /\
+  irun dev_before_fixes 50 w_idx = (lines [7; 7; 0; 1; 7], Finished) /\
+  irun dev_before_fixes 50 w_elem = (lines [5; 5; 3], Finished) /\
+  irun dev_before_fixes 50 w_twice = (lines [2; 1; 2; 1; 0], Finished).
+Proof. repeat split; vm_compute; reflexivity. Qed.
+
+Lemma before_fixes_and_law_fails :
   let s := state_with [] in
-  ieval dev_pinned [] 1 false (ENum 0) s = (Val 0, s) /\
-  ieval dev_pinned [] 3 false (EAnd (ENum 0) (EBin Div (ENum 1) (ENum 0))) s = (Fail EDiv0, s).
+  ieval dev_before_fixes [] 1 false (ENum 0) s = (Val 0, s) /\
+  ieval dev_before_fixes [] 3 false (EAnd (ENum 0) (EBin Div (ENum 1) (ENum 0))) s = (Fail EDiv0, s).
 Proof. split; vm_compute; reflexivity. Qed.
 
 (* each switch alone produces its own witness and leaves the other witnesses alone *)
